@@ -848,3 +848,300 @@ Proof.
     + rewrite app_length, Hl1, Hrs, map_length. lia.
     + rewrite Hn, app_length. lia.
 Qed.
+
+(* ------------------------------------------------------------------ remove_duplicate_nodes: boundary remapping *)
+Section Remap.
+  Variable canon : list nat -> list nat.
+  Variables (nslots : nat) (newp : list nat) (F F' : mat nat) (t2f' : mat nat) (f2t0 : list nat).
+  Local Notation matches := (matches canon newp F F' t2f' f2t0).
+  Local Notation newf := (newf canon nslots newp F F' t2f' f2t0).
+  Local Notation cand := (cand t2f' f2t0).
+  Lemma first_true_spec g n k :
+    (exists s, k <= s < k + n /\ g s = true) ->
+    k <= first_true g n k < k + n /\ g (first_true g n k) = true /\
+    forall s, k <= s < first_true g n k -> g s = false.
+  Proof.
+    revert k. induction n as [|n IH]; intros k [s [Hs Hg]]; [lia|]. simpl.
+    destruct (g k) eqn:Hk.
+    - split; [lia|]. split; [exact Hk|]. intros s' Hs'. lia.
+    - assert (Hex : exists s0, S k <= s0 < S k + n /\ g s0 = true).
+      { exists s. split; [|exact Hg]. destruct (Nat.eq_dec s k) as [->|]; [congruence | lia]. }
+      destruct (IH (S k) Hex) as [H1 [H2 H3]]. split; [lia|]. split; [exact H2|].
+      intros s' Hs'. destruct (Nat.eq_dec s' k) as [->|]; [exact Hk | apply H3; lia].
+  Qed.
+
+
+  (* remap_spec: if the relabelled facet f is a facet of its owner cell in the new mesh (some slot matches), the
+     number found designates a new facet with the same canonical (merged) vertex tuple, and it is one of the facets
+     of that cell *)
+  Theorem newf_spec (f : nat) :
+    (exists s, s < nslots /\ matches s f = true) ->
+    canon (nth (newf f) F' []) = canon (map (fun v => nth v newp 0) (nth f F [])) /\
+    exists s, s < nslots /\ newf f = cand s f.
+  Proof.
+    intros [s [Hs Hm]].
+    assert (Hex : exists s0, 0 <= s0 < 0 + nslots /\ (fun s => matches s f) s0 = true) by (exists s; split; [lia | exact Hm]).
+    destruct (first_true_spec _ nslots 0 Hex) as [Hr [Hg _]].
+    unfold C18_Surgery.newf, argmax_slot. set (r := first_true (fun s0 => matches s0 f) nslots 0) in *.
+    replace (r <? nslots) with true by (symmetry; apply Nat.ltb_lt; lia).
+    split; [|exists r; split; [lia | reflexivity]].
+    unfold C18_Surgery.matches in Hg. apply nats_same_eq in Hg. exact Hg.
+  Qed.
+End Remap.
+(* plain boundaries: np.unique(newf[ixs]) — increasing, exactly the images of the tagged facets *)
+Theorem remap_plain_spec (nf : nat -> nat) (ixs : list nat) :
+  StronglySorted lt (unique_nat (map nf ixs)) /\
+  forall g, In g (unique_nat (map nf ixs)) <-> exists f, In f ixs /\ g = nf f.
+Proof.
+  split; [apply unique_nat_sorted|]. intros g. rewrite unique_nat_In, in_map_iff. split.
+  - intros [f [He Hf]]. exists f. split; [exact Hf | now symmetry].
+  - intros [f [Hf He]]. exists f. split; [now symmetry | exact Hf].
+Qed.
+
+
+(* oriented boundaries: if the old owner cell c of the tagged side is one of the two (distinct) cells of the new facet,
+   the new flag again selects c: the boundary keeps its side *)
+Theorem remap_oriented_keeps_side (f2t0' f2t1' : list Z) (g : nat) (c : Z) :
+  nth g f2t0' (- 1)%Z <> nth g f2t1' (- 1)%Z ->
+  (c = nth g f2t0' (- 1)%Z \/ c = nth g f2t1' (- 1)%Z) ->
+  nth g (if remap_flag f2t1' g c then f2t1' else f2t0') (- 1)%Z = c.
+Proof.
+  intros Hne Hc. unfold remap_flag. destruct (Z.eqb_spec (nth g f2t1' (- 1)%Z) c) as [He|Hn].
+  - exact He.
+  - destruct Hc as [Hc|Hc]; [now symmetry | congruence].
+Qed.
+
+(* newp = zeros; newp[self.t] = t' : a scatter with repeated indices whose values agree *)
+Lemma scatter_consistent {A} (idx : list nat) (vals arr : list A) (i : nat) (v d : A) :
+  length vals = length idx -> i < length arr ->
+  (forall k, k < length idx -> nth k idx 0 = i -> nth k vals d = v) ->
+  (In i idx \/ nth i arr d = v) -> nth i (scatter idx vals arr) d = v.
+Proof.
+  revert vals arr. induction idx as [|i0 idx IH]; intros vals arr Hl Hi Hc Hor.
+  - destruct vals; [|discriminate]. destruct Hor as [[]|H]. exact H.
+  - destruct vals as [|v0 vals]; [discriminate|]. rewrite scatter_cons. apply IH.
+    + simpl in Hl. lia.
+    + rewrite set_nth_length. exact Hi.
+    + intros k Hk He. apply (Hc (S k)); simpl; [lia | exact He].
+    + destruct (Nat.eq_dec i0 i) as [->|Hne].
+      * right. rewrite nth_set_nth_eq by exact Hi. apply (Hc 0); simpl; [lia | reflexivity].
+      * destruct Hor as [[He|Hin]|Harr]; [contradiction | left; exact Hin | right].
+        rewrite nth_set_nth_neq by exact Hne. exact Harr.
+Qed.
+
+
+(* newp really is the vertex relabelling: every vertex in use gets the number all its occurrences got *)
+Theorem remap_newp_spec (npts : nat) (g : nat -> nat) (t : mat nat) (v : nat) :
+  In v (concat t) -> v < npts -> nth v (remap_newp npts t (map (map g) t)) 0 = g v.
+Proof.
+  intros Hin Hv. unfold remap_newp.
+  assert (Hc : concat (map (map g) t) = map g (concat t)) by (rewrite concat_map; reflexivity).
+  rewrite Hc. apply scatter_consistent.
+  - apply map_length.
+  - rewrite repeat_length. exact Hv.
+  - intros k Hk He. rewrite (map_nth_in g (concat t) k 0 0) by exact Hk. rewrite He. reflexivity.
+  - left. exact Hin.
+Qed.
+
+(* ------------------------------------------------------------------ morphed *)
+Lemma morphed_fold {R} (orig : list R) (args : list (option (list R -> R))) (st : list R) (k : nat) (d : R) i :
+  length st = length orig -> k + length args <= length orig ->
+  (k <= i < k + length args ->
+     nth i (fst (fold_left (morph_step orig) args (st, k))) d
+     = match nth (i - k) args None with Some f => f orig | None => nth i st d end) /\
+  (~ (k <= i < k + length args) -> nth i (fst (fold_left (morph_step orig) args (st, k))) d = nth i st d).
+Proof.
+  revert st k. induction args as [|a args IH]; intros st k Hl Hb; simpl in *.
+  - split; [lia | reflexivity].
+  - set (st' := match a with Some f => set_nth k (f orig) st | None => st end).
+    assert (Hl' : length st' = length orig) by (unfold st'; destruct a; [rewrite set_nth_length|]; exact Hl).
+    change (fold_left (morph_step orig) args (morph_step orig (st, k) a))
+      with (fold_left (morph_step orig) args (st', S k)).
+    destruct (IH st' (S k) Hl' ltac:(lia)) as [Hin Hout].
+    assert (Hne : i <> k -> nth i st' d = nth i st d)
+      by (intros H; unfold st'; destruct a; [apply nth_set_nth_neq; lia | reflexivity]).
+    split.
+    + intros Hi. destruct (Nat.eq_dec i k) as [->|Hik].
+      * rewrite Hout by lia. rewrite Nat.sub_diag. simpl. unfold st'.
+        destruct a as [f|]; [apply nth_set_nth_eq; lia | reflexivity].
+      * rewrite Hin by lia. replace (i - k) with (S (i - S k)) by lia. simpl.
+        destruct (nth (i - S k) args None); [reflexivity | apply Hne; exact Hik].
+    + intros Hi. rewrite Hout by lia. apply Hne. lia.
+Qed.
+
+(* morphed_spec: row i of the result is arg_i applied to the ORIGINAL coordinates (or the old row if arg_i is None or
+   absent) — no coordinate function ever sees a coordinate that another one has already replaced *)
+Theorem morphed_rows_spec {R} (p : list R) (args : list (option (list R -> R))) (d : R) (i : nat) :
+  length args <= length p -> i < length p ->
+  nth i (morphed_rows p args) d = match nth i args None with Some f => f p | None => nth i p d end.
+Proof.
+  intros Ha Hi. unfold morphed_rows.
+  destruct (morphed_fold p args p 0 d i eq_refl ltac:(simpl; lia)) as [Hin Hout].
+  destruct (Nat.lt_ge_cases i (length args)) as [H|H].
+  - rewrite Hin by lia. rewrite Nat.sub_0_r. reflexivity.
+  - rewrite Hout by lia. rewrite (nth_overflow args None) by lia. reflexivity.
+Qed.
+
+
+(* ------------------------------------------------------------------ oriented *)
+Theorem swap_rows01_spec (flip : list bool) (r0 r1 : list nat) (rest : mat nat) (e : nat) :
+  length flip = length r0 -> length r1 = length r0 -> e < length r0 ->
+  let t' := swap_rows01 flip (r0 :: r1 :: rest) in
+  nth e (nth 0 t' []) 0 = (if nth e flip false then nth e r1 0 else nth e r0 0) /\
+  nth e (nth 1 t' []) 0 = (if nth e flip false then nth e r0 0 else nth e r1 0) /\
+  (forall r, 2 <= r -> nth r t' [] = nth r (r0 :: r1 :: rest) []).
+Proof.
+  intros Hf H1 He. simpl.
+  assert (Hc : nth e (combine flip (combine r0 r1)) (false, (0, 0)) = (nth e flip false, (nth e r0 0, nth e r1 0))).
+  { rewrite combine_nth by (rewrite combine_length; lia). rewrite combine_nth by lia. reflexivity. }
+  assert (Hlen : e < length (combine flip (combine r0 r1))) by (rewrite !combine_length; lia).
+  split; [|split].
+  - rewrite (map_nth_in _ _ e (false, (0, 0)) 0) by exact Hlen. rewrite Hc. reflexivity.
+  - rewrite (map_nth_in _ _ e (false, (0, 0)) 0) by exact Hlen. rewrite Hc. reflexivity.
+  - intros r Hr. destruct r as [|[|r]]; try lia. reflexivity.
+Qed.
+
+Local Open Scope Z_scope.
+(* exchanging the first two vertices of a simplex negates its determinant: flipping exactly the negatively oriented
+   cells makes every cell positive *)
+Lemma det2_swap (a b c : pt2) : det2 (sub2 a b) (sub2 c b) = - det2 (sub2 b a) (sub2 c a).
+Proof. destruct a as [a1 a2], b as [b1 b2], c as [c1 c2]. cbv [det2 sub2 fst snd]. ring. Qed.
+Lemma det3_swap (a b c d : pt3) :
+  det3 (sub3 a b) (sub3 c b) (sub3 d b) = - det3 (sub3 b a) (sub3 c a) (sub3 d a).
+Proof.
+  destruct a as [[a1 a2] a3], b as [[b1 b2] b3], c as [[c1 c2] c3], d as [[d1 d2] d3].
+  cbv [det3 sub3 x3 y3 z3 fst snd]. ring.
+Qed.
+(* morphed by a shear / any affine map of the plane multiplies determinants by the map's determinant *)
+Lemma det2_affine (m11 m12 m21 m22 : Z) (a b c : pt2) :
+  let G (p : pt2) := (m11 * fst p + m12 * snd p, m21 * fst p + m22 * snd p) in
+  det2 (sub2 (G b) (G a)) (sub2 (G c) (G a)) = (m11 * m22 - m12 * m21) * det2 (sub2 b a) (sub2 c a).
+Proof. destruct a as [a1 a2], b as [b1 b2], c as [c1 c2]. cbv [det2 sub2 fst snd]. ring. Qed.
+
+Local Close Scope Z_scope.
+Lemma nth_repeat_lt {A} (x d : A) n j : j < n -> nth j (repeat x n) d = x.
+Proof. revert j; induction n as [|n IH]; intros [|j] H; simpl; try lia; [reflexivity | apply IH; lia]. Qed.
+
+(* ------------------------------------------------------------------ m0 @ [m1, m2, ...] *)
+Lemma nth_concat_offset {A} (d : A) (ls : list (list A)) j v :
+  j < length ls -> v < length (nth j ls []) ->
+  nth (v + list_sum (firstn j (map (@length A) ls))) (concat ls) d = nth v (nth j ls []) d /\
+  v + list_sum (firstn j (map (@length A) ls)) < length (concat ls).
+Proof.
+  revert j. induction ls as [|l ls IH]; intros j Hj Hv; simpl in Hj; [lia|].
+  destruct j as [|j]; simpl.
+  - rewrite Nat.add_0_r. simpl in Hv. split; [apply app_nth1; exact Hv | rewrite app_length; lia].
+  - simpl in Hv. destruct (IH j ltac:(lia) Hv) as [H1 H2].
+    split.
+    + rewrite app_nth2 by lia. replace (v + (length l + list_sum (firstn j (map (@length A) ls))) - length l)
+        with (v + list_sum (firstn j (map (@length A) ls))) by lia. exact H1.
+    + rewrite app_length. lia.
+Qed.
+
+(* join_spec for m0 @ [m1, m2, ...]: every cell slot of every mesh of the list keeps its vertex coordinates in the
+   shared merged point table *)
+Theorem matmul_cells (ps : list (list key)) (j : nat) (t : mat nat) r c :
+  j < length ps -> r < length t -> c < length (nth r t []) -> nth c (nth r t []) 0 < length (nth j ps []) ->
+  nth (nth c (nth r (matmul_t ps j t) []) 0) (matmul_p ps) [] = nth (nth c (nth r t []) 0) (nth j ps []) [].
+Proof.
+  intros Hj Hr Hc Hv. unfold matmul_t, matmul_p, matmul_offset.
+  set (off := list_sum (firstn j (map (@length key) ps))).
+  set (ts := map (map (fun v => v + off)) t).
+  assert (Hrow : nth r ts [] = map (fun v => v + off) (nth r t [])) by (apply (map_nth_in _ t r [] []); exact Hr).
+  assert (Hent : nth c (nth r ts []) 0 = nth c (nth r t []) 0 + off)
+    by (rewrite Hrow; apply (map_nth_in (fun v => v + off) (nth r t []) c 0 0); exact Hc).
+  destruct (nth_concat_offset [] ps j _ Hj Hv) as [H1 H2]. fold off in H1, H2.
+  rewrite dedupe_cells.
+  - rewrite Hent. exact H1.
+  - unfold ts. rewrite map_length. exact Hr.
+  - rewrite Hrow, map_length. exact Hc.
+  - rewrite Hent. exact H2.
+Qed.
+
+(* ------------------------------------------------------------------ to_meshtri(style='x'): the centre nodes *)
+(* numbering the centres from |p| makes row `centre_row |p| nt nchild` point at the appended centres (also when p has
+   unused trailing points), and leaves every old vertex number pointing at its old point *)
+Theorem quad_x_centres {P} (d : P) (p centres : list P) (nt nchild j k : nat) :
+  length centres = nt -> j < nchild -> k < nt ->
+  nth (nth (k + j * nt) (centre_row (length p) nt nchild) 0) (quad_x_points p centres) d = nth k centres d /\
+  forall v, v < length p -> nth v (quad_x_points p centres) d = nth v p d.
+Proof.
+  intros Hc Hj Hk. split.
+  - unfold centre_row. rewrite (nth_concat_blocks 0 nt).
+    + rewrite nth_repeat_lt by exact Hj. rewrite seq_nth by exact Hk. unfold quad_x_points.
+      rewrite app_nth2 by lia. f_equal. lia.
+    + apply Forall_forall. intros b Hb. apply repeat_spec in Hb. subst b. apply seq_length.
+    + rewrite repeat_length. exact Hj.
+    + exact Hk.
+  - intros v Hv. unfold quad_x_points. apply app_nth1. exact Hv.
+Qed.
+
+(* ------------------------------------------------------------------ to_meshtri: boundary lookup by searchsorted *)
+Definition pair_ok (nv : nat) (f : list nat) : Prop := length f = 2 /\ nth 0 f 0 < nv /\ nth 1 f 0 < nv.
+
+Lemma facet_key_mono nv a b : pair_ok nv a -> pair_ok nv b -> lex_lt a b -> facet_key nv a < facet_key nv b.
+Proof.
+  intros [Ha [Ha0 Ha1]] [Hb [Hb0 Hb1]] Hl. unfold facet_key.
+  destruct a as [|a0 [|a1 [|? ?]]]; try discriminate. destruct b as [|b0 [|b1 [|? ?]]]; try discriminate.
+  simpl in *. unfold lex_lt in Hl. simpl in Hl.
+  apply orb_true_iff in Hl. destruct Hl as [Hl|Hl].
+  - apply Nat.ltb_lt in Hl. nia.
+  - apply andb_true_iff in Hl. destruct Hl as [He Hl]. apply Nat.eqb_eq in He. subst.
+    apply orb_true_iff in Hl. destruct Hl as [Hl|Hl]; [apply Nat.ltb_lt in Hl; lia|].
+    apply andb_true_iff in Hl. destruct Hl as [_ Hf]. discriminate.
+Qed.
+
+Lemma searchsorted_sorted (L : list nat) m : StronglySorted lt L -> m < length L ->
+  searchsorted L (nth m L 0) = m.
+Proof.
+  unfold searchsorted. revert m. induction L as [|x L IH]; intros m Hs Hm; simpl in Hm; [lia|].
+  inversion Hs as [|? ? Hs' Hall]; subst. rewrite Forall_forall in Hall. destruct m as [|m]; simpl.
+  - rewrite Nat.ltb_irrefl.
+    assert (Hf : filter (fun k => k <? x) L = []).
+    { clear -Hall. induction L as [|y L IH]; [reflexivity|]. simpl.
+      replace (y <? x) with false by (symmetry; apply Nat.ltb_ge; specialize (Hall y (or_introl eq_refl)); lia).
+      apply IH. intros z Hz. apply Hall. right. exact Hz. }
+    rewrite Hf. reflexivity.
+  - assert (Hx : x < nth m L 0) by (apply Hall, nth_In; lia).
+    replace (x <? nth m L 0) with true by (symmetry; apply Nat.ltb_lt; exact Hx). simpl.
+    f_equal. apply IH; [exact Hs' | lia].
+Qed.
+
+(* split_spec, facet carry-over of to_meshtri by independent lookup: for a strictly lexicographically sorted facet
+   table NF of vertex pairs below nv and ANY tag (any order, repeated entries allowed) all of whose facets are still
+   facets of the triangle mesh, the j-th number returned designates the new facet with the same vertex pair as the
+   j-th smallest tagged facet; nothing is dropped and repeated entries stay repeated *)
+Theorem lookup_boundary_spec (nv : nat) (OF NF : mat nat) (ixs : list nat) :
+  StronglySorted lex_lt NF -> Forall (pair_ok nv) NF ->
+  (forall k, In k ixs -> In (nth k OF []) NF) ->
+  length (lookup_boundary nv OF NF ixs) = length ixs /\
+  forall j, j < length ixs ->
+    nth (nth j (lookup_boundary nv OF NF ixs) 0) NF [] = nth (nth j (sort_nat ixs) 0) OF [].
+Proof.
+  intros HNF Hok Hin. assert (Hp := sort_nat_perm ixs).
+  assert (Hkeys : StronglySorted lt (map (facet_key nv) NF)).
+  { clear Hin. induction HNF as [|a l Hs IH Hall]; simpl; constructor.
+    - apply IH. inversion Hok; assumption.
+    - inversion Hok as [|? ? Ha Hl]; subst. rewrite Forall_forall in *. intros y Hy.
+      apply in_map_iff in Hy. destruct Hy as [b [<- Hb]]. apply facet_key_mono; [exact Ha | apply Hl; exact Hb | apply Hall; exact Hb]. }
+  unfold lookup_boundary. split; [rewrite map_length; apply (Permutation_length Hp)|].
+  intros j Hj. assert (Hj' : j < length (sort_nat ixs)) by (rewrite (Permutation_length Hp); exact Hj).
+  rewrite (map_nth_in _ (sort_nat ixs) j 0 0) by exact Hj'.
+  set (i := nth j (sort_nat ixs) 0).
+  assert (Hi : In i ixs) by (eapply Permutation_in; [exact Hp | apply nth_In; exact Hj']).
+  destruct (In_nth _ _ [] (Hin i Hi)) as [m [Hm Hnm]].
+  rewrite <- Hnm. f_equal.
+  rewrite <- (map_nth_in (facet_key nv) NF m [] 0) by exact Hm.
+  apply searchsorted_sorted; [exact Hkeys | rewrite map_length; exact Hm].
+Qed.
+
+(* orientation carry-over: the flag selects the cell of the new facet that is a child of the tagged quadrilateral c
+   (children of c are the triangles k with k mod nt = c), whenever one of the two cells of the new facet is such a child *)
+Theorem lookup_flag_spec (nt : nat) (f2t0' f2t1' : list nat) (g : nat) (c : Z) :
+  (Z.of_nat (nth g f2t0' 0 mod nt) = c \/ Z.of_nat (nth g f2t1' 0 mod nt) = c) ->
+  Z.of_nat (nth g (if lookup_flag nt f2t0' g c then f2t1' else f2t0') 0 mod nt) = c.
+Proof.
+  intros H. unfold lookup_flag. destruct (Z.eqb_spec (Z.of_nat (nth g f2t0' 0 mod nt)) c) as [He|Hne]; simpl.
+  - exact He.
+  - destruct H as [H|H]; [contradiction | exact H].
+Qed.
